@@ -974,6 +974,72 @@ fn wire_case(ctx: &mut Ctx, fix: &KeyFix, tag: u8, hp: &HP, pw: &[u8]) -> Option
     }
 }
 
+/// the secret material with its MPIs written the way other implementations write them: the bit
+/// count rounded up to whole octets (GnuPG writes 256 for a 253-bit EdDSA scalar), or one leading zero
+/// octet.  `None` when the material is not a sequence of MPIs or nothing would change.
+fn noncanonical_raw(fix: &KeyFix, how: u8) -> Option<Vec<u8>> {
+    if !fix.fmt.split(',').all(|f| f == "m") {
+        return None;
+    }
+    let mut out = Vec::new();
+    let mut i = 0usize;
+    let mut changed = false;
+    while i + 2 <= fix.raw.len() {
+        let bits = u16::from_be_bytes([fix.raw[i], fix.raw[i + 1]]) as usize;
+        let len = bits.div_ceil(8);
+        if i + 2 + len > fix.raw.len() {
+            return None;
+        }
+        let val = &fix.raw[i + 2..i + 2 + len];
+        if how == 0 {
+            if bits % 8 != 0 {
+                changed = true;
+            }
+            out.extend_from_slice(&((len * 8) as u16).to_be_bytes());
+            out.extend_from_slice(val);
+        } else {
+            changed = true;
+            out.extend_from_slice(&((len * 8 + 8) as u16).to_be_bytes());
+            out.push(0);
+            out.extend_from_slice(val);
+        }
+        i += 2 + len;
+    }
+    if i != fix.raw.len() || !changed {
+        return None;
+    }
+    Some(out)
+}
+
+/// a key from the wire whose secret MPIs are not minimally encoded: whichever usage octet protects it,
+/// the right password restores the (same) material (oracle only)
+fn wire_noncanonical_case(ctx: &mut Ctx, fix: &KeyFix, tag: u8, hp: &HP, pw: &[u8], how: u8) {
+    let Some(raw) = noncanonical_raw(fix, how) else { return };
+    let Some(blob) = own_protect(fix.ver, tag, &fix.pub_body, hp, pw, &raw) else { return };
+    let sec = hp.wire(fix.ver, &blob);
+    let mut body = fix.pub_body.clone();
+    body.extend_from_slice(&sec);
+    let Some(packet) = frame::frame_fixed(true, tag, if body.len() < 192 { 1 } else if body.len() < 8384 { 2 } else { 5 }, &body) else { return };
+    let usage = if hp.var == 1 { "legacy".to_string() } else { hp.usage_octet().to_string() };
+    let site = format!("PacketParser -> SecretKey::unlock (harness-built packet, secret MPIs not minimally encoded, usage octet {usage})");
+    let input = format!("{} form={} packet={} pw={}", fix.name, if how == 0 { "bit count rounded up" } else { "leading zero octet" }, hx(&packet), hx(pw));
+    let parsed = guarded(|| parse_key_packet(&packet));
+    match parsed {
+        Err(_) => ctx.oracle("wire_unlock_any_usage", &site, &input, false, "parser panicked"),
+        Ok(Err(_)) => ctx.stat(&format!("wire_noncanonical:usage{usage}:rejected_by_parser")),
+        Ok(Ok(k)) => {
+            // (through the model as well: its material parser normalises MPIs as the library does)
+            let u = unlock_case(ctx, (fix.ver, fix.fmt), tag, hp, pw, &k, &blob, &fix.pub_body, "wire_noncanonical");
+            ctx.stat(&format!("wire_noncanonical:usage{usage}:{}", if matches!(&u, Ok(Ok(_))) { "unlocked" } else { "refused" }));
+            if unlock_supported(fix.ver, hp) {
+                ctx.oracle("wire_unlock_any_usage", &site, &input, matches!(&u, Ok(Ok(m)) if *m == fix.raw), &short(&ans_unlock(&u)));
+            } else {
+                ctx.oracle("wire_unlock_never_other_material", &site, &input, matches!(&u, Ok(Err(_))) || matches!(&u, Ok(Ok(m)) if *m == fix.raw), &short(&ans_unlock(&u)));
+            }
+        }
+    }
+}
+
 /// configurations for which the RFC lets a reader unlock (used only to decide whether an in-memory
 /// unlock of a harness-built blob is expected to succeed)
 fn unlock_supported(ver: u8, hp: &HP) -> bool {
@@ -1736,6 +1802,8 @@ pub fn run(ctx: &mut Ctx) {
                     let iv = gen_iv(ctx, if var == 2 { own_nonce_size(mode) } else { own_block_size(sym) });
                     let hp = HP { var, sym, mode: if var == 2 { mode } else { 0 }, s2k, iv };
                     let pw = pws[n % pws.len()].clone();
+                    wire_noncanonical_case(ctx, fix, if n % 2 == 0 { 5 } else { 7 }, &hp, &pw, (n % 2) as u8);
+                    wire_noncanonical_case(ctx, fix, if n % 2 == 0 { 5 } else { 7 }, &hp, &pw, ((n + 1) % 2) as u8);
                     if let Some(l) = wire_case(ctx, fix, if n % 2 == 0 { 5 } else { 7 }, &hp, &pw) {
                         wire_locked.push((fi, l));
                     }
